@@ -40,7 +40,7 @@ class Ctx:
     """Per-execution context handed to a body."""
     __slots__ = ('prefix', 'pre_n', 'pre_tag', 'choices', 'arity', 'tags', 'costs',
                  'cum_cost', 'transitions', 'states', 'nontrivial', 'outcomes',
-                 'fails', 'sample', 'evals', 'abstained', 'info', 'tier', 'log')
+                 'fails', 'sample', 'evals', 'abstained', 'info', 'tier', 'log', 'hung', 'no_expand')
 
     def __init__(self, prefix=(), pre_n=(), pre_tag=(), tier='quick'):
         self.prefix = prefix
@@ -62,6 +62,8 @@ class Ctx:
         self.info = Counter()
         self.tier = tier
         self.log = []
+        self.hung = False        # the wall-clock watchdog fired
+        self.no_expand = False   # a body's own horizon was reached: report, do not branch below this execution
 
     # -- nondeterminism ------------------------------------------------------------
     def choose(self, n, tag='', costs=None):
@@ -150,6 +152,7 @@ class Result:
 
     def absorb_ctx(self, ctx, phase):
         self.executions += 1
+        self.hangs += 1 if getattr(ctx, 'hung', False) else 0
         self.transitions += ctx.transitions
         self.evaluations += ctx.evals or 1
         self.abstained += ctx.abstained
@@ -247,13 +250,14 @@ def _alarm(signum, frame):
 def run_one(phase, prefix, pre_n=(), pre_tag=(), tier='quick'):
     ctx = Ctx(tuple(prefix), tuple(pre_n), tuple(pre_tag), tier)
     old = signal.signal(signal.SIGALRM, _alarm)
-    signal.setitimer(signal.ITIMER_REAL, phase.horizon_s)
+    signal.setitimer(signal.ITIMER_REAL, phase.horizon_s, 2.0)   # repeats: a body that swallows Hang gets it again
     try:
         try:
             phase.body(ctx)
         finally:
             signal.setitimer(signal.ITIMER_REAL, 0)
     except Hang:
+        ctx.hung = True
         ctx.fail({'symptom': 'hang', 'phase': phase.name},
                  note='execution exceeded its horizon of %ss' % phase.horizon_s,
                  log=list(ctx.log)[-20:])
@@ -300,6 +304,12 @@ def _expand(phase, prefix, pre_n, pre_tag, tier, res):
     ctx = run_one(phase, prefix, pre_n, pre_tag, tier)
     res.absorb_ctx(ctx, phase.name)
     kids = []
+    if getattr(ctx, 'no_expand', False):
+        # the execution ran into a horizon (reported as a violation): its choice points are an unrolled
+        # polling loop, not a space to explore
+        res.hangs += 1
+        res.cap_hit = True
+        return kids
     for code in _children(ctx, len(prefix), phase.bound):
         i, alt = divmod(code, 1000003)
         kids.append((tuple(ctx.choices[:i]) + (alt,), tuple(ctx.arity[:i + 1]), tuple(ctx.tags[:i + 1])))
@@ -320,9 +330,15 @@ def explore_roots(phase, roots, tier, res, budget=None):
         n += 1
         if budget is not None and n >= budget:
             break
+        if res.hangs >= HANG_CAP:
+            break      # every hang costs a full horizon: the driver decides whether to go on
     stack.reverse()
     return stack
 
+
+# A hang is a violation (the run exits 1 anyway) and costs a whole horizon of wall-clock time: after this many
+# the phase is abandoned and reported as capped instead of waiting one horizon per remaining execution.
+HANG_CAP = 3
 
 # ---- parallel driver ---------------------------------------------------------------
 
@@ -385,9 +401,19 @@ def run_phases(phases, tier='quick', workers=None, progress=None):
     else:
         _w_init(phases, tier)
     try:
+        abandoned = False
         for pi, ph in enumerate(phases):
             t0 = time.time()
             total = Result()
+            if abandoned:
+                # an earlier phase was given up after HANG_CAP hangs (violations already recorded; workers may
+                # still be inside hung executions): the remaining phases are not run and say so
+                total.cap_hit = True
+                total.wall_s = 0.0
+                out[ph.name] = total
+                if progress:
+                    progress(ph, total)
+                continue
             root = ((), (), ())
             chunk = getattr(ph, 'chunk', None) or 2000
             if pool is None or ph.serial:
@@ -405,6 +431,9 @@ def run_phases(phases, tier='quick', workers=None, progress=None):
                     if left:
                         tasks.append(left)
                     if total.harness_errors:
+                        break
+                    if total.hangs >= HANG_CAP:
+                        total.cap_hit = True
                         break
             else:
                 rq = _q.Queue()
@@ -434,11 +463,16 @@ def run_phases(phases, tier='quick', workers=None, progress=None):
                     total.merge(res)
                     if total.harness_errors:
                         break
+                    if total.hangs >= HANG_CAP:
+                        total.cap_hit = True
+                        break
                     if first and total.executions >= workers * 2:
                         first = False
                     backlog.extend(_split(left, workers))
                     backlog.sort(key=lambda t: -len(t[0][0]))  # pop() takes the shallowest
             total.wall_s = time.time() - t0
+            if total.hangs >= HANG_CAP:
+                abandoned = True
             out[ph.name] = total
             if progress:
                 progress(ph, total)
